@@ -73,15 +73,22 @@ def history(rng, kt, universe, length):
     ops = []
     for _ in range(length):
         k = rng.choice(universe)
-        op = rng.choice(['set.add', 'set.remove', 'set.mem', 'map.put', 'map.del', 'map.get', 'map.mem', 'map.gau', 'size', 'set.iter', 'map.iter', 'map.map'])
+        op = rng.choice(['set.add', 'set.remove', 'set.mem', 'map.put', 'map.del', 'map.get', 'map.mem', 'map.gau', 'size', 'set.iter', 'map.iter', 'map.map',
+                         'copy.set', 'copy.map'])
         ops.append(op)
-        if op == 'set.add' or op == 'set.remove':
-            code += [PUSH(T.BOOL, op == 'set.add'), PUSH(kt, k), I('UPDATE')]
+        # the key handed to the operation is, a third of the time, the copy DUP makes (the original is dropped)
+        pushk = [PUSH(kt, k)] + ([I('DUP'), I('DIP', [I('DROP')])] if rng.random() < 0.33 else [])
+        if op == 'copy.set':
+            code += [I('DUP'), I('DIP', [I('DROP')])]
+        elif op == 'copy.map':
+            code += [I('SWAP'), I('DUP'), I('DIP', [I('DROP')]), I('SWAP')]
+        elif op == 'set.add' or op == 'set.remove':
+            code += [PUSH(T.BOOL, op == 'set.add')] + pushk + [I('UPDATE')]
         elif op == 'set.mem':
             code += [I('DUP'), PUSH(kt, k), I('MEM'), I('DUG', N(2 + nobs))]
             nobs += 1
         elif op in ('map.put', 'map.del'):
-            code += [I('SWAP'), PUSH(T.option(vt), ('Some', rng.choice(vals)) if op == 'map.put' else None), PUSH(kt, k), I('UPDATE'), I('SWAP')]
+            code += [I('SWAP'), PUSH(T.option(vt), ('Some', rng.choice(vals)) if op == 'map.put' else None)] + pushk + [I('UPDATE'), I('SWAP')]
         elif op == 'map.get':
             code += [I('DUP', N(2)), PUSH(kt, k), I('GET'), I('DUG', N(2 + nobs))]
             nobs += 1
@@ -114,14 +121,22 @@ def judge_literals(ctx, rng, kt, universe):
     bad = list(srt)
     bad[i], bad[i + 1] = bad[i + 1], bad[i]
     dup = srt[:i + 1] + srt[i:]
-    for lits, why in ((bad, 'unsorted'), (dup, 'duplicate')):
+    def spell(x, j, why):
+        # the second occurrence of a duplicate is written in the other spelling of the same value where the type has one
+        if why == 'duplicate-respelled' and j == i + 1:
+            if kt == T.SIGNATURE and len(x) == 64:
+                from rv.model import base58 as B58
+                return {'string': B58.encode(x, 'edsig')}
+            return P.render(x, kt, 'optimized')
+        return P.render(x, kt, 'readable')
+    for lits, why in ((bad, 'unsorted'), (dup, 'duplicate'), (dup, 'duplicate-respelled')):
         for coll in ('set', 'map'):
             t = T.set_(kt) if coll == 'set' else T.map_(kt, T.NAT)
-            lit = [P.render(x, kt, 'readable') for x in lits] if coll == 'set' else [{'prim': 'Elt', 'args': [P.render(x, kt, 'readable'), {'int': '0'}]} for x in lits]
+            lit = [spell(x, j, why) for j, x in enumerate(lits)] if coll == 'set' else [{'prim': 'Elt', 'args': [spell(x, j, why), {'int': '0'}]} for j, x in enumerate(lits)]
             it = D.new_interpreter()
             res = it.execute([{'prim': 'PUSH', 'args': [T.to_micheline(t), lit]}])
             ctx.count('bad_literals')
-            ctx.case(('lit', T.show(t), repr(lits)), nontrivial=True)
+            ctx.case(('lit', T.show(t), repr(lits), why), nontrivial=True)
             if res.error is None:
                 ctx.violation('C14|%s-%s-literal-accepted|%s' % (why, coll, kt[0]), repr(lits)[:200],
                               {'code': [{'prim': 'PUSH', 'args': [T.to_micheline(t), lit]}], 'expect': 'reject'})
